@@ -68,5 +68,43 @@ Definition check_one (c : case1) : verdict :=
 
 (* mixed layouts: one column per quantity, imperial or metric at random, in random order,
    decoded by the full decoder model; every stored field must agree *)
+(* the dual-unit fields of a session compared within the constant's precision (2e-5 relative
+   between two implementations that are each within 1e-5 of the exact definitions), every
+   other field exactly *)
+Definition fabs (a : f64) : f64 := if flt a fzero then fneg a else a.
+Definition close_conv (a b : f64) : bool :=
+  (fnorm a =? fnorm b) ||
+  fle (fabs (fsub a b)) (fadd (f_of_ratio 1 500000000) (fmul (f_of_ratio 1 50000) (fabs a))).
+Definition close_opt (a b : option f64) : bool :=
+  match a, b with None, None => true | Some x, Some y => close_conv x y | _, _ => false end.
+Definition blank_obd (o : option obd) : option obd :=
+  match o with None => None | Some o => Some (mkObd (o_update o) None (o_rpm o) (o_throttle o) None None None) end.
+Definition blank_record (r : record) : record :=
+  mkRecord (r_now r) (r_time r) (r_lap r) (r_pred r) (r_off r)
+           (let g := r_gps r in mkGps (g_update g) (g_delay g) (g_lat g) (g_lon g) 0 0 (g_head g))
+           0 (r_accel r) (r_brake r) 0 0 (blank_obd (r_obd r)).
+Definition blank_obs (o : obs) : obs :=
+  mkObs (map (fun l => mkLap (lap_dur l) (lap_num l) (map blank_record (lap_recs l))) (ob_laps o))
+        (ob_meta o) (ob_vehicle o) (ob_endpoint o).
+Definition duals (r : record) : list (option f64) :=
+  [Some (r_speed r); Some (g_alt (r_gps r)); Some (g_acc (r_gps r)); Some (r_baro r); Some (r_palt r)] ++
+  match r_obd r with None => [] | Some o => [o_speed o; o_coolant o; o_intake o; o_manifold o] end.
+Definition obs_duals (o : obs) : list (option f64) := flat_map (fun l => flat_map duals (lap_recs l)) (ob_laps o).
+Definition duals_close (a b : obs) : bool :=
+  let x := obs_duals a in let y := obs_duals b in
+  Nat.eqb (length x) (length y) && forallb (fun '(p, q) => close_opt p q) (combine x y).
+
+Definition check_mixed (c : Ta_run.case) : verdict :=
+  match Ta_run.check c with
+  | VV => match Ta_run.c_class c, decode (s_of_bytes (Ta_run.c_text c)) with
+          | 0%nat, Ok s =>
+              let m := obs_of_session s in
+              if zlist_eqb (tok_obs (blank_obs m)) (tok_obs (blank_obs (Ta_run.c_obs c))) && duals_close m (Ta_run.c_obs c)
+              then VS else VV
+          | _, _ => VV
+          end
+  | v => v
+  end.
+
 Definition check_case (c : case) : verdict :=
-  match c with One c1 => check_one c1 | Mixed c2 => Ta_run.check c2 end.
+  match c with One c1 => check_one c1 | Mixed c2 => check_mixed c2 end.
